@@ -139,6 +139,10 @@ let handle (toks: string list) : string =
       let cs = desequence (nat_of_int (int_of_string chunk)) d in
       id ^ " " ^ String.concat "," (List.map (fun c -> string_of_int (List.length c)) cs) ^ " " ^ string_of_int (List.length d) ^ " true " ^ hex_of_bytes (sequence cs)
   | "dosbin" :: id :: addr :: hex :: [] -> id ^ " " ^ show_outcome (dos_pack_bin (hexarg hex) (n_of_int (int_of_string addr)))
+  | "probin" :: id :: addr :: hex :: [] ->
+      (match prodos_pack_bin (hexarg hex) (n_of_int (int_of_string addr)) with
+       | ROk f -> id ^ " ok:" ^ hex_of_bytes f.pf_aux ^ ":" ^ string_of_int (int_of_n f.pf_eof) ^ ":" ^ String.concat "," (List.map hex_of_bytes f.pf_chunks)
+       | _ -> id ^ " err:1")
   | "dostok" :: id :: hex :: [] -> id ^ " " ^ show_outcome (dos_pack_tok (hexarg hex))
   | "wozchunk" :: id :: ptr :: hex :: [] ->
       let ((next, cid), c) = woz_next_chunk (n_of_int (int_of_string ptr)) (hexarg hex) in
